@@ -22,6 +22,10 @@ def _one(pid, d):
     name = os.path.basename(d)
     meta_path = d[:-5] + ".json"
     expect = json.load(open(meta_path)).get("expect_keys", []) if os.path.exists(meta_path) else []
+    if os.path.basename(d) == "patch.diff":          # a seeded change kept under /verif/seeded/<id>/
+        name = "seeded-" + os.path.basename(os.path.dirname(d))
+        mp = os.path.join(os.path.dirname(d), "meta.json")
+        expect = (json.load(open(mp)).get("caught_by") or {}).get(pid, []) if os.path.exists(mp) else []
     scratch = tempfile.mkdtemp(prefix="rssl-mutant-")
     try:
         repo = os.path.join(scratch, "repo")
@@ -46,6 +50,15 @@ def _one(pid, d):
 def run(pid, chk):
     mdir = os.path.join(F.VERIF, "engine", "selftest", "mutants")
     diffs = sorted(glob.glob(os.path.join(mdir, pid + "-*.diff")))
+    # seeded changes (made by independent agents, confirmed by hand) that this property's check is recorded to report
+    for mp in sorted(glob.glob(os.path.join(F.VERIF, "seeded", "*", "meta.json"))):
+        try:
+            cb = json.load(open(mp)).get("caught_by") or {}
+        except ValueError:
+            continue
+        pd = os.path.join(os.path.dirname(mp), "patch.diff")
+        if cb.get(pid) and os.path.exists(pd):
+            diffs.append(pd)
     if not diffs:
         print("  selftest: no mutants registered for %s" % pid)
         return 0
